@@ -8,7 +8,9 @@ export PYTHONPATH="$CASSIS_REPO:$(pwd)"
 export PYTHONDONTWRITEBYTECODE=1
 /venv/bin/python harness/extract_builtins.py
 cd lean
-lake build CassisModel cassis_driver 2>&1 | grep -v '^✔' | tail -20
+# (the exit status of lake decides, not that of the filter: a failed build must fail the setup even if an older driver exists)
+set -o pipefail
+lake build CassisModel cassis_driver 2>&1 | { grep -v '^✔' || true; } | tail -20
 test -x .lake/build/bin/cassis_driver
 echo '{"k":"covered","l":[[2,5,1],[2,2,0],[5,5,2]],"q":[[2,5]]}' | .lake/build/bin/cassis_driver | grep -q '"covered":\[\[2,2,0\],\[2,5,1\],\[5,5,2\]\]'
 echo "setup ok"
